@@ -2,12 +2,18 @@ import SieveModel.Lemmas.Assoc
 import SieveModel.Lemmas.Gating
 import SieveModel.Lemmas.NoCrash
 import SieveModel.Generated.Tables
+import SieveModel.Lemmas.Typed
+import SieveModel.Lemmas.Count
 /-!
 # C20 — registered custom commands
 
 The interpreter theorems of C03 / C07 are *generic in the definition list*; this file instantiates
 them as statements about an arbitrary registered definition and adds the registry lemmas:
 `add_commands` makes exactly the registered name resolvable and leaves every other name alone.
+Per-definition table conditions survive registration (`register_forall`), so the theorems proved for every table that
+meets them hold with custom commands registered: every input gets a verdict (`custom_commands_keep_the_verdict`), no
+command or test of an accepted script is dropped or duplicated (`custom_commands_keep_the_node_count`), and every argument
+of an accepted tree is a token of the script in a slot that admits its kind and value (`custom_commands_are_typed`).
 -/
 namespace C20
 
@@ -106,5 +112,47 @@ theorem custom_commands_keep_the_verdict (ds : List CmdDef) (hds : ∀ d ∈ ds,
       exact ih (fun d' hd' => hds d' (by simp [hd'])) (T.register d)
         (register_keeps_table_safe T d hT (h d (by simp))) (fun d' hd' => h d' (by simp [hd']))
   exact Safe.parse_verdict _ (hsafe _ (by decide +kernel) hds) text {}
+
+/-- a condition every definition meets survives registration of a definition that meets it -/
+theorem register_forall (P : CmdDef → Prop) (T : Table) (d : CmdDef) (hT : ∀ x ∈ T, P x) (hd : P d) :
+    ∀ x ∈ T.register d, P x := by
+  intro x hx
+  unfold Table.register at hx
+  split at hx
+  · simp only [List.mem_map] at hx
+    obtain ⟨e, he, rfl⟩ := hx
+    split
+    · exact hd
+    · exact hT e he
+  · simp only [List.mem_append, List.mem_singleton] at hx
+    rcases hx with hx | rfl
+    · exact hT x hx
+    · exact hd
+
+theorem registerAll_forall (P : CmdDef → Prop) (ds : List CmdDef) (hds : ∀ d ∈ ds, P d) :
+    ∀ (T : Table), (∀ x ∈ T, P x) → ∀ x ∈ ds.foldl Table.register T, P x := by
+  induction ds with
+  | nil => intro T hT; exact hT
+  | cons d rest ih =>
+    intro T hT
+    exact ih (fun d' hd' => hds d' (by simp [hd'])) (T.register d) (register_forall P T d hT (hds d (by simp)))
+
+/-- with custom commands registered, no command or test of an accepted script is dropped or duplicated -/
+theorem custom_commands_keep_the_node_count (ds : List CmdDef) (hds : ∀ d ∈ ds, Safe.cmdSafe d = true) (text : Bytes)
+    (prev : PState) (r : List Node)
+    (h : Machine.parse (ds.foldl Table.register Generated.builtinTable) text prev = .accept r) :
+    ∃ lr, Lex.lex text = some lr ∧ Count.cntNs r = Count.idents lr.toks :=
+  Count.accepted_node_count
+    (registerAll_forall (fun d => Safe.cmdSafe d = true) ds hds Generated.builtinTable (by decide +kernel)) text prev r h
+
+/-- with custom commands registered, every argument of an accepted tree is a token of the script in a slot of its
+    command's definition that admits its kind and its value -/
+theorem custom_commands_are_typed (ds : List CmdDef) (hds : ∀ d ∈ ds, Typed.reassignOK d = true) (text : Bytes)
+    (prev : PState) (r : List Node)
+    (h : Machine.parse (ds.foldl Table.register Generated.builtinTable) text prev = .accept r) :
+    ∃ lr, Lex.lex text = some lr ∧
+      ∀ n ∈ r, Typed.NodeT (fun tok => tok ∈ lr.toks) (ds.foldl Table.register Generated.builtinTable) n :=
+  Typed.accepted_tree_typed
+    (registerAll_forall (fun d => Typed.reassignOK d = true) ds hds Generated.builtinTable (by decide +kernel)) text prev r h
 
 end C20
